@@ -246,6 +246,51 @@ theorem rstep_userCall (hs : SetupOk S) (ih : Sim P S n) (args : List Expr) (f :
         · exact ⟨Or.inr ⟨rfl, hrp⟩, hpop⟩
         · cases fl <;> exact ⟨Or.inr ⟨rfl, hrp⟩, hpop⟩
 
+theorem eOk_mem {X D : Nat → Bool} : ∀ (es : List Expr), eOkList X D es = true → ∀ e ∈ es, eOk X D e = true
+  | [], _, _, he => by cases he
+  | x :: xs, h, e, he => by
+      simp only [eOkList, Bool.and_eq_true] at h
+      rcases List.mem_cons.mp he with rfl | he
+      · exact h.1
+      · exact eOk_mem xs h.2 e he
+
+theorem selArgs_mem' {args : List Expr} {idx : List Nat} {e : Expr} {chk : V → Except Err V}
+    (h : (some e, chk) ∈ selArgs (V := V) args idx) : e ∈ args := by
+  simp only [selArgs, List.mem_map, Prod.mk.injEq] at h
+  obtain ⟨i, _, hi, _⟩ := h
+  exact List.mem_of_getElem? hi
+
+theorem stepArgs_mem {args : List Expr} {steps : List (Nat × (V → Except Err V))} {e : Expr} {chk : V → Except Err V}
+    (h : (some e, chk) ∈ stepArgs args steps) : e ∈ args := by
+  simp only [stepArgs, List.mem_map, Prod.mk.injEq] at h
+  obtain ⟨q, _, hi, _⟩ := h
+  exact List.mem_of_getElem? hi
+
+theorem pathItems_mem {c : V → Except Err V} {path : List Expr} {e : Expr} {chk : V → Except Err V}
+    (h : (some e, chk) ∈ pathItems c path) : e ∈ path := by
+  simp only [pathItems, List.mem_map, Prod.mk.injEq, Option.some.injEq] at h
+  obtain ⟨x, hx, rfl, _⟩ := h
+  exact hx
+
+/-- Selected expressions evaluated in order with checks, in both runs. -/
+theorem rchecked (ih : Sim P S n) (miss : Err) : ∀ (items : List (Option Expr × (V → Except Err V))) (a b : St V),
+    (∀ e chk, (some e, chk) ∈ items → eOk S.BR S.D2 e = true) → Rel S a b → Inv2 P S b →
+    Out S (evalChecked (evalExpr P S.cfg n) miss items a) (evalChecked (evalExpr P plain n) miss items b) ∧
+      Inv2 P S (evalChecked (evalExpr P plain n) miss items b).2
+  | [], a, b, _, hr, hi => ⟨Or.inr ⟨rfl, hr⟩, hi⟩
+  | (none, _) :: _, a, b, _, hr, hi => ⟨Or.inr ⟨rfl, hr⟩, hi⟩
+  | (some e, chk) :: rest, a, b, h, hr, hi => by
+      simp only [evalChecked]
+      obtain ⟨ho, hq⟩ := ih.expr e a b (h e chk (by simp)) hr hi
+      chain (evalExpr P S.cfg n e a), (evalExpr P plain n e b), ho, hq
+      cases chk v with
+      | error er => exact ⟨Or.inr ⟨rfl, hrel'⟩, hq⟩
+      | ok v' =>
+        simp only []
+        obtain ⟨ho2, hq2⟩ := rchecked ih miss rest s1 s2 (fun e' c' hm => h e' c' (List.mem_cons_of_mem _ hm)) hrel' hq
+        chain (evalChecked (evalExpr P S.cfg n) miss rest s1), (evalChecked (evalExpr P plain n) miss rest s2), ho2, hq2
+        exact ⟨Or.inr ⟨rfl, hrel'⟩, hq2⟩
+
 theorem rstep_expr (hs : SetupOk S) (ih : Sim P S n) : ∀ (e : Expr) (a b : St V), eOk S.BR S.D2 e = true →
     Rel S a b → Inv2 P S b →
     Out S (evalExpr P S.cfg (n + 1) e a) (evalExpr P plain (n + 1) e b) ∧
@@ -326,13 +371,23 @@ theorem rstep_expr (hs : SetupOk S) (ih : Sim P S n) : ∀ (e : Expr) (a b : St 
       cases P.isMut field with
       | false =>
         simp only [Bool.false_eq_true, ↓reduceIte]
-        obtain ⟨ho, hq⟩ := ih.list (o :: args) a b (by simp [eOkList, he'.1, he'.2]) hr hi
-        chain (evalList P S.cfg n (o :: args) a), (evalList P plain n (o :: args) b), ho, hq
-        exact ⟨Or.inr ⟨rfl, hrel'⟩, hq⟩
+        obtain ⟨ho, hq⟩ := ih.expr o a b he'.1 hr hi
+        chain (evalExpr P S.cfg n o a), (evalExpr P plain n o b), ho, hq
+        cases P.memberSel field v with
+        | error er => exact ⟨Or.inr ⟨rfl, hrel'⟩, hq⟩
+        | ok idx =>
+          simp only []
+          obtain ⟨ho2, hq2⟩ := rchecked ih P.argMissing (selArgs args idx) s1 s2
+            (fun e chk hm => eOk_mem args he'.2 e (selArgs_mem' hm)) hrel' hq
+          chain (evalChecked (evalExpr P S.cfg n) P.argMissing (selArgs args idx) s1),
+            (evalChecked (evalExpr P plain n) P.argMissing (selArgs args idx) s2), ho2, hq2
+          exact ⟨Or.inr ⟨rfl, hrel'⟩, hq2⟩
       | true =>
         simp only [↓reduceIte]
-        obtain ⟨ho, hq⟩ := ih.list args a b he'.2 hr hi
-        chain (evalList P S.cfg n args a), (evalList P plain n args b), ho, hq
+        obtain ⟨ho, hq⟩ := rchecked ih P.argMissing (stepArgs args (P.mutSteps field)) a b
+          (fun e chk hm => eOk_mem args he'.2 e (stepArgs_mem hm)) hr hi
+        chain (evalChecked (evalExpr P S.cfg n) P.argMissing (stepArgs args (P.mutSteps field)) a),
+          (evalChecked (evalExpr P plain n) P.argMissing (stepArgs args (P.mutSteps field)) b), ho, hq
         simp only at hq hrel'
         revert v
         intro vargs
@@ -342,8 +397,10 @@ theorem rstep_expr (hs : SetupOk S) (ih : Sim P S n) : ∀ (e : Expr) (a b : St 
           obtain ⟨root, path⟩ := rp
           have hlo := eOk_lvalue o root path he'.1 hlv
           simp only []
-          obtain ⟨ho2, hq2⟩ := ih.list path s1 s2 hlo.2 hrel' hq
-          chain (evalList P S.cfg n path s1), (evalList P plain n path s2), ho2, hq2
+          obtain ⟨ho2, hq2⟩ := rchecked ih P.argMissing (pathItems P.idx path) s1 s2
+            (fun e chk hm => eOk_mem path hlo.2 e (pathItems_mem hm)) hrel' hq
+          chain (evalChecked (evalExpr P S.cfg n) P.argMissing (pathItems P.idx path) s1),
+            (evalChecked (evalExpr P plain n) P.argMissing (pathItems P.idx path) s2), ho2, hq2
           have el : lookupEnv P.dscope root s1.env = lookupEnv P.dscope root s2.env := lookup_rel hs.d12 hlo.1 _ _ _ hrel'.2.2
           rw [el]
           cases lookupEnv P.dscope root s2.env with
@@ -365,10 +422,8 @@ theorem rstep_expr (hs : SetupOk S) (ih : Sim P S n) : ∀ (e : Expr) (a b : St 
   | .call (.call _ _ _ _) args fn sp, a, b, he, hr, hi | .call (.array _ _) args fn sp, a, b, he, hr, hi
   | .call (.unary _ _ _) args fn sp, a, b, he, hr, hi | .call (.bool _ _) args fn sp, a, b, he, hr, hi
   | .call (.null _) args fn sp, a, b, he, hr, hi => by
-      have he' := he
-      simp only [eOk] at he'
       simp only [evalExpr]
-      exact rstep_generic hs ih _ a b (by simpa [children] using he') he hr hi
+      exact rstep_generic hs ih _ a b (by simp [children, eOkList]) he hr hi
 
 theorem base_ok (hs : SetupOk S) {f i : Nat} {es : List Expr} (hiT : (i, true) ∈ S.T) (hf : S.BR f = true)
     (hb : S.base f i es) : eOkList S.BR S.D2 es = true := by
@@ -429,8 +484,10 @@ theorem rstep_stmt (hs : SetupOk S) (ih : Sim P S n) : ∀ (s : Stmt) (a b : St 
         obtain ⟨root, path⟩ := rp
         have hlo := eOk_lvalue t root path he.1 hlv
         simp only []
-        obtain ⟨ho2, hq2⟩ := ih.list path s1 s2 hlo.2 hrel' hq
-        chain (evalList P S.cfg n path s1), (evalList P plain n path s2), ho2, hq2
+        obtain ⟨ho2, hq2⟩ := rchecked ih P.argMissing (pathItems P.idx path) s1 s2
+          (fun e chk hm => eOk_mem path hlo.2 e (pathItems_mem hm)) hrel' hq
+        chain (evalChecked (evalExpr P S.cfg n) P.argMissing (pathItems P.idx path) s1),
+          (evalChecked (evalExpr P plain n) P.argMissing (pathItems P.idx path) s2), ho2, hq2
         have el : lookupEnv P.dscope root s1.env = lookupEnv P.dscope root s2.env := lookup_rel hs.d12 hlo.1 _ _ _ hrel'.2.2
         rw [el]
         cases lookupEnv P.dscope root s2.env with
